@@ -10,6 +10,7 @@ import (
 	"os"
 	"runtime"
 	"strconv"
+	"strings"
 	"time"
 
 	"verifh/harness/h"
@@ -27,7 +28,19 @@ func main() {
 	budget := flag.Duration("budget", 0, "wall-clock budget for the whole check (0 = tier default)")
 	verifDir := flag.String("verif", "/verif", "verif directory")
 	list := flag.Bool("list", false, "list scenarios")
+	conformGraph := flag.String("conform", "", "C05: state graph (tla/graph.py output) to replay against the client")
+	conformShard := flag.Int("conformshard", -1, "internal: shard index")
+	conformOf := flag.Int("of", 1, "internal: shard count")
+	wrapPrefix := flag.Int("wrapprefix", 0, "conformance: acknowledged exchanges before the replay starts")
+	maxAge := flag.Int("maxage", 2, "conformance: MaxAge of the model configuration")
+	stride := flag.Int("stride", 1, "internal: conformance path stride")
+	tlcSummary := flag.String("tlc", "", "C05: JSON summary of the TLC runs (tools/tlc_run.py)")
 	flag.Parse()
+
+	if *conformShard >= 0 {
+		h.ConformShard(*conformGraph, *wrapPrefix, *maxAge, *conformShard, *conformOf, *stride)
+		return
+	}
 
 	if *worker {
 		if *workercap > 0 {
@@ -51,6 +64,9 @@ func main() {
 		if err != nil {
 			fmt.Println("INFRA-ERROR", err)
 			os.Exit(2)
+		}
+		if strings.Contains(string(b), `"conform_steps"`) {
+			os.Exit(h.ConformReplay(*replay))
 		}
 		var f h.Found
 		if err := json.Unmarshal(b, &f); err != nil {
@@ -99,6 +115,52 @@ func main() {
 	rep := &h.Report{Prop: *prop, Tier: *tier, Seed: seed, Level: "model_checking", T0: t0, VerifDir: *verifDir,
 		Rule: "every execution is one complete run of the real (mechanically rewritten) knx-go code under the controlled scheduler; executions are enumerated depth-first over the choice vector (goroutine order, select case, timer ties, environment answers) up to the stated preemption and fault bounds; distinct = distinct oracle-relevant event logs"}
 	var args []string
+	if *conformGraph != "" {
+		// model <-> code binding: replay an edge-covering path set of the TLC state graph
+		st, g := h.Conform("C05-conformance-replay", *conformGraph, 0, *maxAge, *workers, 1, args)
+		rep.Stats = append(rep.Stats, st)
+		fmt.Printf("  conformance: model states=%d transitions=%d, paths replayed=%d (edge cover), real steps=%d mismatches=%v wall=%.1fs\n", st.States, func() int {
+			if g != nil {
+				return g.NEdges
+			}
+			return 0
+		}(), st.Execs, st.Steps, st.ClassCount, st.WallS)
+		wrapStride := 16
+		if *tier == "thorough" {
+			wrapStride = 4
+		}
+		st2, _ := h.Conform("C05-conformance-replay-after-254-exchanges", *conformGraph, 254, *maxAge, *workers, wrapStride, args)
+		rep.Stats = append(rep.Stats, st2)
+		fmt.Printf("  conformance after a 254-exchange prefix (real 255->0 wrap): paths replayed=%d mismatches=%v wall=%.1fs\n", st2.Execs, st2.ClassCount, st2.WallS)
+		rep.Extra = map[string]interface{}{}
+		if g != nil {
+			rep.Extra["model"] = map[string]interface{}{"spec": "tla/TunnelLink.tla", "states": g.NStates, "transitions": g.NEdges, "max_depth": g.MaxDepth, "paths_in_edge_cover": len(g.Paths), "path_set_capped": g.Capped}
+		}
+		if *tlcSummary != "" {
+			if b, err := os.ReadFile(*tlcSummary); err == nil {
+				var v interface{}
+				if json.Unmarshal(b, &v) == nil {
+					rep.Extra["tlc"] = v
+					if m, ok := v.(map[string]interface{}); ok {
+						if mcr, ok := m["model_check"].(map[string]interface{}); ok {
+							if inv, _ := mcr["invariant_violated"].(string); inv != "" {
+								tr, _ := mcr["trace"].(string)
+								st := &h.Stats{Scenario: "C05-TLC-model-check", ClassCount: map[string]int{"C05:model-invariant:" + inv: 1}, Outcomes: map[uint64]int{}, Reasons: map[string]int{}}
+								st.Found = append(st.Found, h.Found{Scenario: "C05-TLC-model-check", Class: "C05:model-invariant:" + inv, Msg: "TLC found a reachable state of TunnelLink.tla that violates " + inv + "\n" + tr})
+								rep.Stats = append(rep.Stats, st)
+							}
+							if n, ok := mcr["distinct_states"].(float64); ok {
+								rep.ModelStates = int64(n)
+							}
+							if n, ok := mcr["states_generated"].(float64); ok {
+								rep.ModelTransitions = int64(n)
+							}
+						}
+					}
+				}
+			}
+		}
+	}
 	for i, nme := range names {
 		sc := scen.Registry[nme]
 		if sc == nil {
